@@ -2,6 +2,7 @@
 //! requested from a counting global allocator; coarse secondary oracle: thread CPU time per byte.
 
 use ipp::parser::IppParser;
+use ipp::prelude::*;
 use ipp::reader::IppReader;
 use proptest::prelude::*;
 use serde_json::{json, Value};
@@ -196,6 +197,9 @@ pub fn fixed_families() -> Vec<Family> {
         fam("many members, same name", &named_coll, &[], 0, &[&[0x4au8, 0, 0, 0, 1, b'm'][..], ADD_INT].concat(), &[], END, false),
         fam("maximal text values (65535 octets)", &[0x01], &[], 0, &big_value, &[], &[], false),
         fam("maximal additional octetString values (invalid UTF-8)", NAMED_Z, &[], 0, &big_add, &[], &[], false),
+        // values in a syntax the library does not know (kept as raw octets): 2000 and 65535 octets
+        fam("raw-octet values (unassigned tag 0x39), 2000 octets", &[0x01], &[], 0, &[&[0x39u8, 0, 7, b'r'][..], b"######", &[0x07, 0xd0], &vec![0x5au8; 2000][..]].concat(), &[], &[], false),
+        fam("raw-octet additional values (unassigned tag 0x2f), 65535 octets", NAMED_Z, &[], 0, &[&[0x2fu8, 0, 0, 0xff, 0xff][..], &vec![0xc3u8; 65535][..]].concat(), &[], &[], false),
         fam("long names", &[0x01], &[], 0, &[&[0x21u8, 0x01, 0x06][..], b"######", &vec![b'n'; 256][..], &[0, 4, 0, 0, 0, 1]].concat(), &[], &[], false),
     ];
     // malformed / truncated variants
@@ -377,7 +381,7 @@ fn run_family(ctx: &Ctx, sub: &str, f: &Family, limit: usize, cpu_factor: f64, p
 }
 
 pub fn run(ctx: &Ctx) {
-    ctx.set_rule("input families f(n) = header ++ prefix ++ n x (open^depth ++ unit ++ close^depth) ++ suffix: 18 fixed families (nested collections up to depth 120 repeated, with/without member names, unclosed, multi-valued; wide sets; sets of collections; many attributes distinct/same name; many groups; many members; maximal 65535-octet values; long names) each also cut at 60 %, plus proptest-generated families (unit = 1-4 generated tokens with generated name/value lengths and numbered names, depth 0-120, inside or outside a collection, closed or not, cut or not). Each family is parsed at sizes 8 KiB x 2^i up to 256 KiB (quick) / 1 MiB (thorough; 4 MiB for three families) - every parse is one evaluation - under a counting global allocator: bytes requested <= 1024/input byte + 256 KiB, peak live <= 512/input byte + 256 KiB, and per doubling (pairs above 16 KiB, unit <= 1/4 of the input) bytes / calls / peak grow by <= x2.6 (+256 KiB); work inside logging statements: with a `log` logger enabled at trace level every fixed family is parsed at 16-128 KiB and the octets of log text rendered during the parse (a deterministic measure of work) must stay <= 256 per input byte + 256 KiB and grow by <= x2.6 per doubling; fragmentation invariance: under one-byte reads the CPU time per input byte for 65535-octet values is <= x6 that for 500-octet values (both parsers); CPU backstop: thread CPU time per byte at the largest size <= x16 (quick) / x40 (thorough) the per-byte time at 8 KiB (best of repetitions, re-measured before reporting). Sizes are escalated only while the family is within bounds. Non-trivial = family reaches >= 64 KiB and the parser consumed the whole input; distinct by family descriptor.");
+    ctx.set_rule("input families f(n) = header ++ prefix ++ n x (open^depth ++ unit ++ close^depth) ++ suffix: 18 fixed families (nested collections up to depth 120 repeated, with/without member names, unclosed, multi-valued; wide sets; sets of collections; many attributes distinct/same name; many groups; many members; maximal 65535-octet values; long names) each also cut at 60 %, plus proptest-generated families (unit = 1-4 generated tokens with generated name/value lengths and numbered names, depth 0-120, inside or outside a collection, closed or not, cut or not). Each family is parsed at sizes 8 KiB x 2^i up to 256 KiB (quick) / 1 MiB (thorough; 4 MiB for three families) - every parse is one evaluation - under a counting global allocator: bytes requested <= 1024/input byte + 256 KiB, peak live <= 512/input byte + 256 KiB, and per doubling (pairs above 16 KiB, unit <= 1/4 of the input) bytes / calls / peak grow by <= x2.6 (+256 KiB); work inside logging statements: with a `log` logger enabled at trace level every fixed family is parsed at 16-128 KiB and the octets of log text rendered during the parse (a deterministic measure of work) must stay <= 256 per input byte + 256 KiB and grow by <= x2.6 per doubling; client path: both clients receive a 70-octet attribute section followed by a 48 MiB (thorough 160 MiB) document, content-length and chunked: the calling thread may request at most 4 MiB from the allocator while send() runs (observed: under 100 KiB); fragmentation invariance: under one-byte reads the CPU time per input byte for 65535-octet values is <= x6 that for 500-octet values (both parsers); CPU backstop: thread CPU time per byte at the largest size <= x16 (quick) / x40 (thorough) the per-byte time at 8 KiB (best of repetitions, re-measured before reporting). Sizes are escalated only while the family is within bounds. Non-trivial = family reaches >= 64 KiB and the parser consumed the whole input; distinct by family descriptor.");
     ctx.assume("CPU cost without allocation is only bounded by the coarse per-byte backstop (timing is too noisy for a tight ratio test)");
     let limit = ctx.tier.pick(256 << 10, 1 << 20);
     let cpu_factor = ctx.tier.pick(16.0, 40.0);
@@ -465,6 +469,10 @@ pub fn run(ctx: &Ctx) {
             }
         }
     }
+    // the client path: a small response followed by a large document. What send() allocates on the
+    // calling thread while it parses the response must follow the attribute section it consumes, not the
+    // size the HTTP layer announces for the body
+    client_path(ctx);
     if ctx.tier == Tier::Thorough {
         for f in fixed_families().into_iter().filter(|f| ["nested collections (members), depth 120, repeated", "wide set", "many attributes, distinct names"].contains(&f.name.as_str())) {
             if let Err(fail) = run_family(ctx, "fixed-4MiB", &f, 4 << 20, cpu_factor, &probe) {
@@ -474,6 +482,69 @@ pub fn run(ctx: &Ctx) {
     }
     let (shards, per) = ctx.tier.pick((4, 10), (8, 25));
     run_prop(ctx, "generated-families", shards, per, generated_family, |f, p| run_family(ctx, "generated", f, limit, cpu_factor, p), |f| f.to_json());
+}
+
+fn client_path(ctx: &Ctx) {
+    use vcore::httpd::*;
+    use vcore::refcodec::*;
+    crate::c11::use_empty_trust_store();
+    let attrs = ref_encode(&WMsg {
+        version: 0x0101,
+        code: 0,
+        request_id: 5,
+        groups: vec![WGroup { tag: 1, attrs: vec![WAttr { name: b"attributes-charset".to_vec(), values: vec![WVal::Scalar { tag: 0x47, body: b"utf-8".to_vec() }] }, WAttr { name: b"attributes-natural-language".to_vec(), values: vec![WVal::Scalar { tag: 0x48, body: b"en".to_vec() }] }] }],
+        payload: vec![],
+    });
+    let doc_len: usize = ctx.tier.pick(48 << 20, 160 << 20);
+    let mut body = attrs.clone();
+    body.resize(attrs.len() + doc_len, 0x20);
+    let body = std::sync::Arc::new(body);
+    for framing in [Framing::ContentLength, Framing::Chunked(vec![65536])] {
+        let b2 = body.clone();
+        let f2 = framing.clone();
+        let server = match Server::start(
+            std::sync::Arc::new(move |_r| {
+                let mut s = Script::ok(b2.to_vec());
+                s.framing = f2.clone();
+                s
+            }),
+            None,
+        ) {
+            Ok(s) => s,
+            Err(e) => {
+                ctx.inconclusive(&format!("client path: {e}"));
+                return;
+            }
+        };
+        let uri: Uri = format!("http://127.0.0.1:{}/ipp/print", server.port).parse().unwrap();
+        for is_async in [false, true] {
+            let which = if is_async { "async" } else { "blocking" };
+            ctx.eval();
+            ctx.nontrivial(hash64(&("client-path", is_async, matches!(framing, Framing::ContentLength))));
+            ctx.label("client path: small response followed by a large document");
+            let req = IppRequestResponse::new(IppVersion::v1_1(), Operation::GetPrinterAttributes, Some(uri.clone()));
+            reset();
+            let uri2 = uri.clone();
+            let ok = catch(move || {
+                if is_async {
+                    let c = AsyncIppClient::builder(uri2).request_timeout(std::time::Duration::from_secs(60)).build();
+                    crate::c11::RT.get().block_on(async move { c.send(req).await.map(drop).is_ok() })
+                } else {
+                    let c = IppClient::builder(uri2).request_timeout(std::time::Duration::from_secs(60)).build();
+                    c.send(req).map(drop).is_ok()
+                }
+            });
+            let (bytes, peak) = (BYTES.with(|x| x.get()), PEAK.with(|x| x.get()).max(0) as u64);
+            let _ = server.take_records();
+            ctx.extra(&format!("client path ({which}, {})", if matches!(framing, Framing::ContentLength) { "content-length" } else { "chunked" }), json!({"attribute_section_bytes": attrs.len(), "document_bytes": doc_len, "bytes_requested_on_the_calling_thread": bytes, "peak_live": peak, "send_ok": ok.clone().unwrap_or(false)}));
+            // the HTTP stack's own buffers are bounded (tens of KiB); 4 MiB is far beyond
+            // anything that follows the 70-octet attribute section
+            if bytes > (4 << 20) || peak > (4 << 20) {
+                let f = Fail::new("C15/client-allocation-follows-announced-size", format!("{which} client: while send() parsed a response with a {}-octet attribute section followed by a {doc_len}-octet document, the calling thread requested {bytes} bytes from the allocator (peak live {peak}): memory follows the announced body size, not the input consumed", attrs.len()));
+                ctx.failure("client-path", &f, json!({"client_path": true, "async": is_async}));
+            }
+        }
+    }
 }
 
 /// log text rendered by one parse of `input` on this thread (trace logging must be on)
@@ -491,7 +562,13 @@ fn judge_log_work(ctx: &Ctx, f: &Family) -> Judge {
     let mut size = 16 << 10;
     while size <= 128 << 10 {
         let input = f.input((size / f.unit_len()).max(1));
+        reset();
         let r = rendered_by_parse(&input);
+        // what the code inside the logging statements requests from the allocator counts as well
+        let alloc = BYTES.with(|x| x.get());
+        if alloc > (ABS_BYTES_PER_BYTE + 64) * input.len() as u64 + ABS_SLACK {
+            return Err(Fail::new("C15/allocation-amplification/trace-logging", format!("family '{}': with a logger enabled at trace level, parsing {} input bytes requests {} bytes from the allocator ({} per input byte; bound {} per input byte + 256 KiB)", f.name, input.len(), alloc, alloc / input.len().max(1) as u64, ABS_BYTES_PER_BYTE + 64)));
+        }
         ctx.eval();
         ctx.nontrivial(hash64(&("log-work", &f.name, size)));
         ctx.label("trace logging on: rendered log text measured");
@@ -511,6 +588,11 @@ fn judge_log_work(ctx: &Ctx, f: &Family) -> Judge {
 }
 
 pub fn replay(ctx: &Ctx, sub: &str, case: &Value) -> Judge {
+    if case.get("client_path").is_some() {
+        let before = ctx.violation_count();
+        client_path(ctx);
+        return if ctx.violation_count() > before { Err(Fail::new("C15/client-allocation-follows-announced-size", "reproduced (see the replay file written just now)")) } else { Ok(()) };
+    }
     if case.get("trace_logging").is_some() {
         let f = Family::from_json(case.get("family").unwrap_or(&Value::Null)).ok_or_else(|| Fail::new("bad-replay", "family"))?;
         set_trace_logging(true);
